@@ -72,48 +72,116 @@ pub fn run_cases(args: &Args, rep: &mut Report, cases: Vec<Case>, plan: &Plan) {
         return;
     }
     let start = Instant::now();
-    let ncases = cases.len().max(1);
+    let deadline = start + plan.total_wall;
     let threads = args.threads.max(1);
-    let across = ncases >= threads; // parallelise over cases when there are many
-    let results: Mutex<Vec<(usize, explore::Deepening)>> = Mutex::new(Vec::new());
-    let next = std::sync::atomic::AtomicUsize::new(0);
-    let run_case = |i: usize, inner_threads: usize| {
-        // fair share of what is left
-        let elapsed = start.elapsed();
-        let left = plan.total_wall.saturating_sub(elapsed);
-        let done = i.min(ncases - 1);
-        let share = if across {
-            // cases run `threads` at a time
-            left.mul_f64((threads as f64 / (ncases - done) as f64).min(1.0))
-        } else {
-            left.mul_f64(1.0 / (ncases - done) as f64)
+    // Level by level over ALL cases: every case is explored with bound k before any case gets k+1,
+    // so the bound reported as completed is uniform and the wall budget goes to the deepest level.
+    struct St {
+        best: Option<(u32, explore::Stats)>,
+        levels: Vec<(u32, u64, f64)>,
+        last: Option<(u64, f64)>,
+        prev: Option<(u64, f64)>,
+        done: bool,
+        note: Option<String>,
+        extra_violations: Vec<explore::FoundViolation>,
+    }
+    let states: Vec<Mutex<St>> = cases.iter().map(|_| Mutex::new(St { best: None, levels: Vec::new(), last: None, prev: None, done: false, note: None, extra_violations: Vec::new() })).collect();
+    for (li, &k) in plan.ks.iter().enumerate() {
+        let pending: Vec<usize> = (0..cases.len()).filter(|i| !states[*i].lock().unwrap().done).collect();
+        if pending.is_empty() || Instant::now() >= deadline {
+            break;
         }
-        .max(Duration::from_millis(300));
-        let c = &cases[i];
-        let d = explore::iterative(&c.label, &plan.ks, plan.env, plan.fault, inner_threads, plan.max_execs_per_case, share, || (c.exec)(false));
-        results.lock().unwrap().push((i, d));
-    };
-    if across {
-        std::thread::scope(|s| {
-            for _ in 0..threads {
-                s.spawn(|| {
-                    loop {
-                        let i = next.fetch_add(1, std::sync::atomic::Ordering::Relaxed);
-                        if i >= cases.len() {
-                            break;
-                        }
-                        run_case(i, 1);
-                    }
-                });
+        let across = pending.len() >= threads;
+        let next = std::sync::atomic::AtomicUsize::new(0);
+        // predicted total cost of this level (single-thread seconds), to decide whether it fits at all
+        let predicted: f64 = pending
+            .iter()
+            .map(|i| {
+                let st = states[*i].lock().unwrap();
+                match (st.last, st.prev) {
+                    (Some((e1, t1)), Some((e0, _))) => t1 * (e1 as f64 / e0.max(1) as f64).max(2.0),
+                    (Some((_, t1)), None) => t1 * 20.0,
+                    _ => 0.01,
+                }
+            })
+            .sum();
+        let left = deadline.saturating_duration_since(Instant::now()).as_secs_f64();
+        if li > 0 && predicted / (threads as f64) > left * 1.2 {
+            for i in &pending {
+                let mut st = states[*i].lock().unwrap();
+                if st.note.is_none() {
+                    st.note = Some(format!("level k={} not attempted: predicted {:.0} s of work for {} cases with {:.0} s left", bound_str(Some(k)), predicted / threads as f64, pending.len(), left));
+                }
             }
-        });
-    } else {
-        for i in 0..cases.len() {
-            run_case(i, threads);
+            break;
+        }
+        let run_one = |i: usize, inner: usize| {
+            let c = &cases[i];
+            let t0 = Instant::now();
+            let stx = explore::explore(
+                Budget::new(k, plan.env, plan.fault),
+                explore::Limits { max_execs: plan.max_execs_per_case, deadline, threads: inner, stop_after_violation_kinds: 0 },
+                &c.label,
+                || (c.exec)(false),
+            );
+            let dt = t0.elapsed().as_secs_f64();
+            let mut st = states[i].lock().unwrap();
+            st.levels.push((k, stx.executions, dt));
+            if let Some(cap) = &stx.capped {
+                st.note = Some(format!("level k={} aborted: {cap}", bound_str(Some(k))));
+                st.done = true;
+                // executions of an incomplete level are still real: keep their violations
+                st.extra_violations.extend(stx.violations);
+                if st.best.is_none() {
+                    st.best = None;
+                }
+                return;
+            }
+            st.prev = st.last;
+            st.last = Some((stx.executions, dt));
+            let same = st.best.as_ref().is_some_and(|(_, b)| b.executions == stx.executions);
+            st.best = Some((if same { Budget::UNBOUNDED } else { k }, stx));
+            if same || k == Budget::UNBOUNDED {
+                st.done = true; // the tree is exhausted
+            }
+        };
+        if across {
+            std::thread::scope(|s| {
+                for _ in 0..threads {
+                    s.spawn(|| {
+                        loop {
+                            let j = next.fetch_add(1, std::sync::atomic::Ordering::Relaxed);
+                            if j >= pending.len() {
+                                break;
+                            }
+                            run_one(pending[j], 1);
+                        }
+                    });
+                }
+            });
+        } else {
+            for &i in &pending {
+                run_one(i, threads);
+            }
         }
     }
-    let mut results = results.into_inner().unwrap();
-    results.sort_by_key(|(i, _)| *i);
+    let ncases = cases.len().max(1);
+    let _ = ncases;
+    let results: Vec<(usize, explore::Deepening)> = states
+        .into_iter()
+        .enumerate()
+        .map(|(i, m)| {
+            let st = m.into_inner().unwrap();
+            let (bound, mut stats) = match st.best {
+                Some((k, s)) => (Some(k), s),
+                None => (None, explore::Stats::default()),
+            };
+            for v in st.extra_violations {
+                stats.violations.push(v);
+            }
+            (i, explore::Deepening { stats, bound_completed: bound, levels: st.levels, note: st.note })
+        })
+        .collect();
     let mut witnesses = 0u64;
     let mut min_bound: Option<u32> = Some(Budget::UNBOUNDED);
     let mut outcomes_total = 0u64;
